@@ -5,7 +5,7 @@ import ast
 
 from sa.core import Ob
 from sa.pm import AnalysisError, norm, body_nodes
-from sa import gi, df, ru
+from sa import gi, df, ru, sym
 from sa.gi import GuardWalker, FiniteAtomizer, FinSet
 
 RMD = "pycoin/contrib/ripemd160.py"
@@ -56,6 +56,22 @@ def spec_tables():
 IV = (0x67452301, 0xEFCDAB89, 0x98BADCFE, 0x10325476, 0xC3D2E1F0)
 
 
+_REF = None
+
+
+def _ref():
+    global _REF
+    if _REF is None:
+        import os
+        _REF = ast.parse(open(os.path.join(os.path.dirname(os.path.dirname(os.path.abspath(__file__))), "spec", "ref_hash.py")).read())
+    return _REF
+
+
+def _not_bytes(*prefixes):
+    """integer typing for the hash functions: every name is an integer except the byte strings / sequences named"""
+    return lambda t: not t.startswith(prefixes)
+
+
 # ------------------------------------------------------------------ C19.1
 def c19_1(ctx):
     it = ctx.interp
@@ -66,172 +82,49 @@ def c19_1(ctx):
         diff = [i for i, (a, b) in enumerate(zip(got, want)) if a != b] if isinstance(got, list) and len(got) == len(want) else "length"
         ctx.check(got == want, "table:%s" % name, "%s:1" % RMD, "RIPEMD-160 table %s differs from the specification at entries %s" % (name, diff if diff == "length" else diff[:6]),
                   sample={"table": name, "entries": len(want), "derived_from": "rho/pi permutations and the 5x16 shift table" if name[0] in "MR" and name != "KR" else "2^30 * roots of 2,3,5,7"})
-    f = ctx.func(RMD, "fi")
-    w = GuardWalker(gi.SymbolicAtomizer(ru.subject({"i"}), df.const_int))
-    ex = w.run(f.node.body)
-    got = {}
-    for e in ex:
-        if e.kind == "return":
-            s = gi.sat_set(e.cond, gi.IntSet.all(), gi.IntSet.empty())
-            if len(s.ivs) == 1 and s.ivs[0][0] == s.ivs[0][1]:
-                got[s.ivs[0][0][1]] = norm(e.value)
-    want = {0: "x ^ y ^ z", 1: "x & y | ~x & z", 2: "(x | ~y) ^ z", 3: "x & z | y & ~z", 4: "x ^ (y | ~z)"}
-    ctx.check(got == want, "round-functions", ctx.where(f), "the five RIPEMD-160 boolean functions are %s" % got, sample={"fi": got})
-    r = ctx.func(RMD, "rol")
-    ctx.check(norm(r.node.body[-1]) == "return (x << i | (x & 4294967295) >> 32 - i) & 4294967295", "rol", ctx.where(r), "rol is not a 32-bit left rotation: %s" % norm(r.node.body[-1]))
-    c = ctx.func(RMD, "compress")
-    body = [norm(s) for s in c.node.body if not (isinstance(s, ast.Expr) and isinstance(s.value, ast.Constant))]
-    want_body = [
-        "al, bl, cl, dl, el = (h0, h1, h2, h3, h4)",
-        "ar, br, cr, dr, er = (h0, h1, h2, h3, h4)",
-        "x = [struct.unpack('<L', block[4 * i:4 * (i + 1)])[0] for i in range(16)]",
-        "for j in range(80):\n    rnd = j >> 4\n    al = rol(al + fi(bl, cl, dl, rnd) + x[ML[j]] + KL[rnd], RL[j]) + el\n    al, bl, cl, dl, el = (el, al, bl, rol(cl, 10), dl)\n"
-        "    ar = rol(ar + fi(br, cr, dr, 4 - rnd) + x[MR[j]] + KR[rnd], RR[j]) + er\n    ar, br, cr, dr, er = (er, ar, br, rol(cr, 10), dr)",
-        "return (h1 + cl + dr, h2 + dl + er, h3 + el + ar, h4 + al + br, h0 + bl + cr)",
-    ]
-    for i, (g, w_) in enumerate(zip(body + [""] * 5, want_body)):
-        ctx.check(g == w_, "compress-step-%d" % i, ctx.where(c), "compress step %d is `%s`; the specification's step is `%s`" % (i, g[:120], w_[:120]), what="compress:%d" % i, sample=None)
-    ctx.check(len(body) == len(want_body), "compress-length", ctx.where(c), "compress has %d steps, expected %d" % (len(body), len(want_body)))
-    h = ctx.func(RMD, "ripemd160")
-    body = [norm(s) for s in h.node.body if not (isinstance(s, ast.Expr) and isinstance(s.value, ast.Constant))]
-    want_body = [
-        "state = (%d, %d, %d, %d, %d)" % IV,
-        "for b in range(len(data) >> 6):\n    state = compress(*state, data[64 * b:64 * (b + 1)])",
-        "pad = b'\\x80' + b'\\x00' * (119 - len(data) & 63)",
-        "fin = data[len(data) & ~63:] + pad + struct.pack('<Q', 8 * len(data))",
-        "for b in range(len(fin) >> 6):\n    state = compress(*state, fin[64 * b:64 * (b + 1)])",
-        "return b''.join((struct.pack('<L', h & 4294967295) for h in state))",
-    ]
-    for i, (g, w_) in enumerate(zip(body + [""] * 6, want_body)):
-        ctx.check(g == w_, "ripemd160-step-%d" % i, ctx.where(h), "ripemd160 step %d is `%s`; Merkle-Damgard padding / IV / output per the specification: `%s`" % (i, g[:120], w_[:120]), what="md:%d" % i,
-                  sample={"step": i, "statement": g[:100]} if i in (2, 3) else None)
-    ctx.check(len(body) == len(want_body), "ripemd160-length", ctx.where(h), "ripemd160 has %d steps, expected %d" % (len(body), len(want_body)))
+    ints = _not_bytes("block", "data", "state", "fin", "pad", "struct", "b''", "x[", "[")
+    isub = sym.value_leaf(lambda e: norm(e) == "i", df.const_int)
+    sym.against_reference(ctx, ctx.func(RMD, "fi"), _ref(), "fi", "round-functions", ints, leaf=isub)
+    sym.against_reference(ctx, ctx.func(RMD, "rol"), _ref(), "rol", "rol", ints)
+    sym.against_reference(ctx, ctx.func(RMD, "compress"), _ref(), ["compress", "compress_v2"], "compress", ints)
+    sym.against_reference(ctx, ctx.func(RMD, "ripemd160"), _ref(), ["ripemd160", "ripemd160_v2"], "merkle-damgard", ints)
 
 
 # ------------------------------------------------------------------ C19.2
-def _ops(stmts, vars_):
-    return [norm(s) for s in stmts if isinstance(s, (ast.Assign, ast.AugAssign)) and norm(s.targets[0] if isinstance(s, ast.Assign) else s.target) in vars_]
-
-
 def c19_2(ctx):
-    f = ctx.func(BLOOM, "murmur3")
-    top = [s for s in f.node.body if not (isinstance(s, ast.Expr) and isinstance(s.value, ast.Constant))]
-    defs = df.single_defs(f.node)
-    for nm, val in (("c1", 0xCC9E2D51), ("c2", 0x1B873593)):
-        ctx.check(nm in defs and df.const_int(defs[nm]) == val, "murmur-const:%s" % nm, ctx.where(f), "murmur3 constant %s is %s, MurmurHash3_x86_32 uses 0x%08x" % (nm, norm(defs[nm]) if nm in defs else None, val))
-    ctx.check(norm(defs.get("roundedEnd", ast.Constant(0))) == "length & 4294967292" and norm(defs.get("length", ast.Constant(0))) == "len(data)", "murmur-blocks", ctx.where(f), "murmur3 does not process len & ~3 bytes in 4-byte blocks")
-    loops = [s for s in top if isinstance(s, ast.For)]
-    if len(loops) != 1:
-        raise AnalysisError("murmur3: expected one block loop")
-    lp = loops[0]
-    ctx.check(norm(lp.iter) == "range(0, roundedEnd, 4)", "murmur-block-loop", ctx.where(f, lp), "block loop iterates %s" % norm(lp.iter))
-    got = _ops(lp.body, {"k1", "h1"})
-    want = ["k1 = data[i] & 255 | (data[i + 1] & 255) << 8 | (data[i + 2] & 255) << 16 | data[i + 3] << 24", "k1 *= c1", "k1 = k1 << 15 | (k1 & 4294967295) >> 17", "k1 *= c2",
-            "h1 ^= k1", "h1 = h1 << 13 | (h1 & 4294967295) >> 19", "h1 = h1 * 5 + 3864292196"]
-    ctx.check(got == want, "murmur-block-mix", ctx.where(f, lp), "block mixing is %s; MurmurHash3: k*=c1, rotl 15, k*=c2, h^=k, rotl 13, h=h*5+0xe6546b64 on a little-endian word" % [g for g in got if g not in want][:3],
-              sample={"block": got})
-    # tail: k1 restarts at 0 after the loop
-    idx = top.index(lp)
-    after = top[idx + 1:]
-    k0 = [s for s in after if isinstance(s, ast.Assign) and norm(s) == "k1 = 0"]
-    before = [s for s in top[:idx] if isinstance(s, ast.Assign) and norm(s.targets[0]) == "k1"]
-    tail_ifs = [s for s in after if isinstance(s, ast.If) and "val" in norm(s.test)]
-    ok = len(k0) == 1 and not before and tail_ifs and after.index(k0[0]) < after.index(tail_ifs[0])
-    ctx.check(ok, "murmur-tail-reset", ctx.where(f), "the tail does not start from k1 = 0 after the block loop: the tail bytes are OR-ed into the last block's k1 (inputs with len % 4 in {1,2} and len >= 4 hash wrongly)",
-              sample={"k1_reset_after_loop": len(k0), "k1_assigned_before_loop": len(before)})
-    ctx.check(norm(defs.get("val", ast.Constant(0))) == "length & 3", "murmur-tail-length", ctx.where(f), "tail length is not len & 3")
-    from sa.interp import Frame
-    it = ctx.interp
-    mv = it.module(f.module.name)
-    fa = FiniteAtomizer(range(4), lambda e, v: bool(it.eval(e, Frame(mv, None, {"val": v}))))
-    w = GuardWalker(fa)
-    w.block(after, True)
-    got = {}
-    for st, r in w.visits:
-        if isinstance(st, (ast.Assign, ast.AugAssign)) and norm(st.targets[0] if isinstance(st, ast.Assign) else st.target) in ("k1", "h1") and not gi.f_equiv(r, True, fa.univ(), fa.empty()):
-            got[norm(st)] = sorted(gi.sat_set(r, fa.univ(), fa.empty()).m)
-    want = {"k1 = (data[roundedEnd + 2] & 255) << 16": [3], "k1 |= (data[roundedEnd + 1] & 255) << 8": [2, 3], "k1 |= data[roundedEnd] & 255": [1, 2, 3],
-            "k1 *= c1": [1, 2, 3], "k1 = k1 << 15 | (k1 & 4294967295) >> 17": [1, 2, 3], "k1 *= c2": [1, 2, 3], "h1 ^= k1": [1, 2, 3]}
-    ctx.check(got == want, "murmur-tail-switch", ctx.where(f), "tail handling by (len & 3) is %s; MurmurHash3 falls through 3 -> 2 -> 1 with shifts 16, 8, 0 and mixes k1 once" % {k: v for k, v in got.items() if want.get(k) != v},
-              sample={"tail": got})
-    fin = _ops([s for s in after if not isinstance(s, ast.If) and norm(s) != "k1 = 0"], {"h1"})
-    want = ["h1 ^= length", "h1 ^= (h1 & 4294967295) >> 16", "h1 *= 2246822507", "h1 ^= (h1 & 4294967295) >> 13", "h1 *= 3266489909", "h1 ^= (h1 & 4294967295) >> 16"]
-    ctx.check(fin == want, "murmur-fmix", ctx.where(f), "finalisation is %s; MurmurHash3 fmix32: ^=len, ^>>16, *0x85ebca6b, ^>>13, *0xc2b2ae35, ^>>16" % fin)
-    rets = df.returns_of(f.node)
-    ctx.check(len(rets) == 1 and norm(rets[0].value) == "h1 & 4294967295" and norm(defs.get("h1", ast.Constant(0))) != "seed" or any(norm(s) == "h1 = seed" for s in top), "murmur-seed-and-result", ctx.where(f), "murmur3 does not start from the seed / return the low 32 bits")
-    # bloom filter addressing
-    a = ctx.func(BLOOM, "BloomFilter.add_item")
-    t = norm(a.node)
-    ctx.check("for hash_index in range(self.hash_function_count):" in t and "seed = hash_index * 4221880213 + self.tweak" in t and "self.set_bit(murmur3(item_bytes, seed=seed) % self.bit_count)" in t, "bip37-seeds", ctx.where(a),
-              "BloomFilter.add_item does not set bit murmur3(item, i*0xFBA4C795 + tweak) mod (8*size) for each hash function i")
-    i = ctx.func(BLOOM, "BloomFilter.__init__")
-    ctx.check("self.bit_count = 8 * size_in_bytes" in norm(i.node) and "self.filter_bytes = bytearray(size_in_bytes)" in norm(i.node), "bloom-size", ctx.where(i), "bit count is not 8 * size")
-    x = ctx.func(BLOOM, "BloomFilter._index_for_bit")
-    t = norm(x.node)
-    ctx.check("byte_index, mask_index = divmod(v, 8)" in t and "mask = self.MASK_ARRAY[mask_index]" in t, "bloom-bit-address", ctx.where(x), "bit v is not byte v//8, mask 1 << (v%8)")
-    cv = it.get(a.module.name, "BloomFilter")
-    ctx.check(it.getattr(cv, "MASK_ARRAY") == [1, 2, 4, 8, 16, 32, 64, 128], "bloom-masks", ctx.where(x), "MASK_ARRAY is not [1<<i]")
-    sb = ctx.func(BLOOM, "BloomFilter.set_bit")
-    ctx.check("self.filter_bytes[byte_index] |= mask" in norm(sb.node), "bloom-set", ctx.where(sb), "set_bit does not OR the mask into the byte")
-
-
-# ------------------------------------------------------------------ C19.3
-def c19_3(ctx):
-    n = 0
-    for rel, name in ((BLOOM, "murmur3"), (RMD, "rol"), (RMD, "compress"), (RMD, "ripemd160")):
-        f = ctx.func(rel, name)
-        for x in body_nodes(f.node):
-            if isinstance(x, ast.BinOp) and isinstance(x.op, ast.RShift):
-                l = x.left
-                clean = (isinstance(l, ast.BinOp) and isinstance(l.op, ast.BitAnd) and 0xFFFFFFFF in (df.const_int(l.left), df.const_int(l.right))) or \
-                    (isinstance(l, ast.Name) and l.id in ("j", "b")) or (isinstance(l, ast.Call) and norm(l.func) == "len")
-                n += 1
-                ctx.check(clean, "dirty-right-shift:%s:%s" % (name, norm(x)), ctx.where(f, x), "%s: `%s` shifts a value that is not reduced to 32 bits first (Python integers are unbounded: high garbage bits enter the result)" % (name, norm(x)),
-                          what="%s:%s" % (name, norm(x)), sample={"function": name, "shift": norm(x)} if n < 3 else None)
-            # rotation pairs
-            if isinstance(x, ast.BinOp) and isinstance(x.op, ast.BitOr) and isinstance(x.left, ast.BinOp) and isinstance(x.left.op, ast.LShift) and isinstance(x.right, ast.BinOp) and isinstance(x.right.op, ast.RShift):
-                a, b = df.const_int(x.left.right), df.const_int(x.right.right)
-                if a is not None and b is not None:
-                    ctx.check(a + b == 32, "rotation-pair:%s:%d" % (name, a), ctx.where(f, x), "%s: rotation `%s` shifts by %d and %d, which do not sum to 32" % (name, norm(x), a, b), what="rot:%s:%d:%d" % (name, a, b), sample=None)
+    ints = _not_bytes("data", "item", "self.filter_bytes", "self.MASK")
+    tail = sym.value_leaf(lambda e: norm(e) == "len(data) % 4", df.const_int, truthy_is_nonzero=False)
+    sym.against_reference(ctx, ctx.func(BLOOM, "murmur3"), _ref(), "murmur3", "murmur3", lambda t: not t.startswith("data") or t.startswith("data["), leaf=tail)
+    sym.against_reference(ctx, ctx.func(BLOOM, "BloomFilter.__init__"), _ref(), "bloom_init", "bloom-size", ints)
+    sym.against_reference(ctx, ctx.func(BLOOM, "BloomFilter.add_item"), _ref(), "bloom_add_item", "bip37-seeds", ints)
+    sym.against_reference(ctx, ctx.func(BLOOM, "BloomFilter._index_for_bit"), _ref(), "bloom_index_for_bit", "bloom-bit-address", ints)
+    sym.against_reference(ctx, ctx.func(BLOOM, "BloomFilter.set_bit"), _ref(), "bloom_set_bit", "bloom-set", ints)
+    sym.against_reference(ctx, ctx.func(BLOOM, "BloomFilter.check_bit"), _ref(), "bloom_check_bit", "bloom-check", ints)
+    cv = ctx.interp.get(ctx.p.module(BLOOM).name, "BloomFilter")
+    ctx.check(ctx.interp.getattr(cv, "MASK_ARRAY") == [1, 2, 4, 8, 16, 32, 64, 128], "bloom-masks", "%s:1" % BLOOM, "MASK_ARRAY is not [1<<i]")
 
 
 # ------------------------------------------------------------------ C19.4
 def c19_4(ctx):
+    none = lambda t: False
+    sym.against_reference(ctx, ctx.func(HASH, "get_best_ripemd160"), _ref(), "get_best_ripemd160", "selection", none)
     f = ctx.func(HASH, "get_best_ripemd160")
-    w = GuardWalker(ru.opaque)
-    ex = w.run(f.node.body)
-    ctx.check(all(e.kind == "return" and e.value is not None and not (isinstance(e.value, ast.Constant) and e.value.value is None) for e in ex), "selection-total", ctx.where(f),
-              "get_best_ripemd160 has an exit that does not return a hash factory: %s" % [(e.kind, norm(e.value) if e.value is not None else None) for e in ex])
-    nat = [e for e in ex if e.kind == "return" and norm(e.value) == "ripemd160_native"]
-    from rules.C01 import can_be
-    A, B = "'ripemd160' in hashlib.algorithms_available", "os.getenv('PYCOIN_USE_PYTHON_RIPEMD160')"
-    ok = len(nat) == 1 and can_be(nat[0].cond, A) and not can_be(gi.f_and(nat[0].cond, ("not", ("op", A))), "\0") and not can_be(gi.f_and(nat[0].cond, ("op", B)), "\0")
-    ctx.check(ok, "native-selection", ctx.where(f), "the native implementation is not selected exactly when available and PYCOIN_USE_PYTHON_RIPEMD160 is unset")
-    tries = [n for n in body_nodes(f.node) if isinstance(n, ast.Try) and any("ripemd160_native(b'').digest()" in norm(s) for s in n.body)]
-    ctx.check(len(tries) == 1 and nat and any(nat[0].node is s for s in tries[0].body), "native-probed", ctx.where(f), "the native implementation is returned without a successful probe call")
-    fall = [e for e in ex if e.kind == "return" and norm(e.value) == "_PurePythonRIPEMD160"]
-    ctx.check(len(fall) == 1, "fallback", ctx.where(f), "the pure-Python fallback is not the last resort")
-    pp = ctx.func(HASH, "_PurePythonRIPEMD160.__init__")
-    body = [norm(s) for s in pp.node.body]
-    ctx.check(body == ["self._digest: bytes = pycoin.contrib.ripemd160.ripemd160(data)"], "fallback-delegates", ctx.where(pp),
-              "_PurePythonRIPEMD160.__init__ is %s; it must hash every input through pycoin.contrib.ripemd160.ripemd160 (no special-cased lengths)" % body, sample={"body": body})
-    dg = ctx.func(HASH, "_PurePythonRIPEMD160.digest")
-    ctx.check([norm(s) for s in dg.node.body] == ["return self._digest"], "fallback-digest", ctx.where(dg), "_PurePythonRIPEMD160.digest does not return the computed digest")
-    n = ctx.func(HASH, "ripemd160_native")
-    ctx.check("return hashlib.new('ripemd160', data)" in norm(n.node), "native", ctx.where(n), "ripemd160_native is not hashlib.new('ripemd160', data)")
-    h = ctx.func(HASH, "hash160")
-    ctx.check("return ripemd160(hashlib.sha256(data).digest()).digest()" in norm(h.node), "hash160", ctx.where(h), "hash160 is not ripemd160(sha256(data))")
-    d = ctx.func(HASH, "double_sha256")
-    ctx.check("return bytes_as_revhex(hashlib.sha256(hashlib.sha256(data).digest()).digest())" in norm(d.node), "double-sha256", ctx.where(d), "double_sha256 is not sha256(sha256(data))")
+    w = sym.walk(ctx, f)
+    bad = [e for e in w.exits if e.kind != "return" or e.value is None or (isinstance(e.value, ast.Constant) and e.value.value is None)]
+    ctx.check(not bad, "selection-total", ctx.where(f), "get_best_ripemd160 has an exit that does not return a hash factory: %s" % [(e.kind, norm(e.value) if e.value is not None else None) for e in bad])
+    sym.against_reference(ctx, ctx.func(HASH, "_PurePythonRIPEMD160.__init__"), _ref(), "pure_init", "fallback-delegates", none)
+    sym.against_reference(ctx, ctx.func(HASH, "_PurePythonRIPEMD160.digest"), _ref(), "pure_digest", "fallback-digest", none)
+    sym.against_reference(ctx, ctx.func(HASH, "ripemd160_native"), _ref(), "ripemd160_native", "native", none)
+    sym.against_reference(ctx, ctx.func(HASH, "hash160"), _ref(), "hash160", "hash160", none)
+    sym.against_reference(ctx, ctx.func(HASH, "double_sha256"), _ref(), "double_sha256", "double-sha256", none)
     m = ctx.p.module(HASH)
     ctx.check([norm(v) for v in m.assigns.get("ripemd160", [])] == ["get_best_ripemd160()"], "selection-bound", "%s:1" % HASH, "module-level ripemd160 is not get_best_ripemd160()")
 
 
 OBLIGATIONS = [
-    Ob("C19.1", "RIPEMD-160 tables re-derived from the specification; round functions, compress and padding steps", c19_1, floor=20, engines="TB,CE", exhaustive=True,
+    Ob("C19.1", "RIPEMD-160 tables re-derived from the specification; round functions, rotation, compression and padding equal the reference transcription (canonical forms)", c19_1, floor=10, engines="TB,SYM", exhaustive=True,
        breaks_if="any input when the pure-Python fallback is active (lengths at multiples of 64 for the padding)"),
-    Ob("C19.2", "MurmurHash3_x86_32 constants, block mix, tail switch (finite on len & 3), fmix; BIP37 seeds and bit addressing", c19_2, floor=14, engines="TB,GI(finite)",
+    Ob("C19.2", "MurmurHash3_x86_32 and the BIP37 seed / bit addressing equal the reference transcription (canonical forms; tail switch decided on len & 3)", c19_2, floor=7, engines="SYM,GI",
        breaks_if="items with len % 4 in {1,2,3}; any seed"),
-    Ob("C19.3", "32-bit width hygiene: masked right shifts, rotation pairs sum to 32", c19_3, floor=10, engines="WH"),
-    Ob("C19.4", "implementation selection falls through to a factory on every path; compound hashes", c19_4, floor=10, engines="CFG,DF", breaks_if="56-byte inputs under the fallback"),
+    Ob("C19.4", "implementation selection falls through to a factory on every path; compound hashes", c19_4, floor=8, engines="SYM", breaks_if="56-byte inputs under the fallback"),
 ]
